@@ -31,6 +31,7 @@ class Session:
         self.probe_checks = []  # (node, parsed probe, expected eprs, sent eprs)
         self.resolve_sent = []  # (node, epr, was_local)
         self.table_problems = []
+        self.api_errors = []  # (op id, kind, exception type, traceback) of API calls that raised
         self.models = []  # per node: epr -> {'mv': int, 'max_entries': [entry...]}
         self.enq = []  # (node, t_enqueue, mid, repeat params name, [(send_time, repeat)])
         self.own_mids = []  # per node set of own message ids
@@ -209,6 +210,15 @@ class Session:
                                                                   f'{sv.x_addrs}, announcement had {ent["xaddrs"]}'))
 
     # ------------------------------------------------------------------
+    def _api(self, op, fn, *a, **kw):
+        """a legal call of the discovery API; an exception out of it is kept for the verdict of the calling check"""
+        try:
+            return fn(*a, **kw)
+        except Exception as ex:  # noqa: BLE001
+            import traceback
+            self.api_errors.append((op['id'], op['k'], type(ex).__name__, traceback.format_exc()[-1500:]))
+            return None
+
     def run_ops(self):
         from sdc11073.xml_types import wsd_types
         s = self.s
@@ -229,11 +239,12 @@ class Session:
             if k == 'publish':
                 scopes = wsd_types.ScopesType(value=None)
                 scopes.text = list(op['scopes'])
-                wsd.publish_service(op['epr'], [WC.qn(x) for x in op['types']], scopes, [f'http://{WC.NODE_IPS[n]}:999/{op["epr"][-4:]}'])
+                self._api(op, wsd.publish_service, op['epr'], [WC.qn(x) for x in op['types']], scopes,
+                          [f'http://{WC.NODE_IPS[n]}:999/{op["epr"][-4:]}'])
                 self.ctx.probe('publish')
             elif k == 'clear':
                 if op['epr'] in wsd._local_services:
-                    wsd.clear_service(op['epr'])
+                    self._api(op, wsd.clear_service, op['epr'])
                     self.ctx.probe('clear')
             elif k == 'search':
                 scopes = None
@@ -243,7 +254,7 @@ class Session:
                     if op['rule']:
                         scopes.MatchBy = op['rule']
                 types = [WC.qn(x) for x in op['types']] if op['types'] is not None else None
-                wsd.search_services(types, scopes, timeout=op['timeout'], repeat_probe_interval=op['timeout'])
+                self._api(op, wsd.search_services, types, scopes, timeout=op['timeout'], repeat_probe_interval=op['timeout'])
                 self.ctx.probe('search')
             elif k == 'adv':
                 t.node = WC.ADV_IP
@@ -357,6 +368,10 @@ class C14(CheckBase):
         sess.build()
         sess.run_ops()
         s = ctx.s
+        for oid, kind, exname, tb in sess.api_errors:
+            ctx.violation('C14.probe', f'api-raised:{kind}:{exname}',
+                          f'operation {oid} ({kind}): the discovery API raised, the announcement / search did not take '
+                          f'place as prescribed:\n{tb}')
         with s.no_preempt():
             for i, p, exp, got in sess.probe_checks:
                 ctx.probe('probes_checked')
